@@ -723,6 +723,11 @@ ERRORS += [
     ("array-ref-size-exceeds", "def rf(readonly array[int[8], 5] xa) { } " + AR3 + "rf(ar);"),
     ("array-ref-index-range-in-body", "def rg(readonly array[int[8], 2] xa) -> int[8] { return xa[2]; } " + AR3 + "int[8] rr = rg(ar);"),
 ]
+ERRORS += [
+    ("duplicate-sub-arg-nonadjacent", "def s6(qubit a, qubit b2, qubit c2) { h a; } s6(q[0], q[1], q[0]);"),
+    ("duplicate-sub-arg-nonadjacent-slices", "def s7(qubit[2] a, qubit b2, qubit[2] c2) { h a; } s7(q[1:3], q[0], q[{2, 1}]);"),
+    ("duplicate-sub-arg-two-registers", "def s8(qubit a, qubit b2, qubit c2, qubit d2) { h a; } s8(q[0], r[0], q[1], r[0]);"),
+]
 TOP_ONLY = {"gphase-qubits-global", "redeclared-var"}
 
 CONTEXTS = [
@@ -749,6 +754,8 @@ def error_cases():
     for cls, st in ERRORS:
         for ctx, tpl in CONTEXTS:
             if cls in TOP_ONLY and ctx != "top":
+                continue
+            if "array[" in st and ctx != "top":          # the grammar only allows array declarations at top level
                 continue
             if ctx != "top" and any(k in st for k in ("def ", "gate g", "include", "qubit q", "qubit[")) :
                 continue
@@ -811,6 +818,10 @@ def expr_cases(rnd, n):
         out.append(H3 + pre + "bool b = %d;\nrx(b) q[0];\nint[8] i = b;\nx q[i];\n" % b)
     for v in ["3.7", "-3.7", "0.5", "-0.5", "1e10", "2.5e-3", "1e39", "-1e39", "1e308", "0.0", "-0.0"]:
         out.append(H3 + pre + "int[32] t = %s;\nrz(t) q[1];\nuint[8] u = %s;\nrz(u) q[2];\nfloat[32] f = %s;\nrx(f) q[0];\n" % (v, v, v))
+    for v in ["0.5", "-0.75", "0.25 * 2", "fv2 * 2", "0.0", "-0.0", "1.0", "2.5", "1e-9", "3 - 2.5"]:
+        out.append(H3 + pre + "float[64] fv2 = 0.25;\nbool t = %s;\nif (t) { x q[0]; } else { y q[0]; }\nrx(t) q[1];\nbool t2 = false;\nt2 = %s;\nrx(t2) q[2];\n"
+                   "const bool t3 = %s;\nrx(t3) q[3];\ndef f(bool fb) -> bool { return fb; }\nbool t4 = f(%s);\nrx(t4) q[4];\n" % (v, v, v.replace("fv2", "0.25"), v))
+    out += cast_use_cases()
     ops2 = ["+", "-", "*", "/", "%", "==", "!=", "<", ">", "<=", ">=", "&&", "||", "^", "&", "|", "<<", ">>"]
     lits = ["0", "1", "2", "3", "5", "-1", "-4", "true", "false", "1.5", "-2.5", "0.0", "pi"]
     for op in ops2:
@@ -950,6 +961,13 @@ def array_cases(rnd, n):
             return "%d:%d:%d" % (a, st, b), a, b, st
         if not bad and a > b:
             a, b = b, a
+        c = rnd.random()
+        if c < 0.15:
+            return "%d:" % a, a, d - 1, 1            # open end: the last index of this dimension
+        if c < 0.25:
+            return ":%d" % b, 0, b, 1
+        if c < 0.3:
+            return ":", 0, d - 1, 1
         return "%d:%d" % (a, b), a, b, 1
 
     for _ in range(n):
@@ -968,6 +986,18 @@ def array_cases(rnd, n):
                 return "%s[%d][%d]" % (name, idx(dims[0], p), idx(dims[1], p))
             return "%s[%d, %d]" % (name, idx(dims[0], p), idx(dims[1], p))
 
+        if len(dims) == 2 and rnd.random() < 0.6:
+            # rows and columns move between a 2-D array and a 1-D one through slices (open-ended or not)
+            L.append("array[%s, %d] row;" % (ty, dims[1]))
+            i = idx(dims[0], p_bad)
+            lo = rnd.randrange(dims[1])
+            form = rnd.choice([(":", ":"), ("%d:" % lo, "%d:" % lo), ("%d:%d" % (lo, dims[1] - 1), "%d:" % lo), (":%d" % lo, "0:%d" % lo)])
+            L.append("row[:] = a[%d, :];" % idx(dims[0], p_bad))
+            L.append("row[%s] = a[%d, %s];" % (form[0], i, form[1]))
+            L.append("rx(row[%d]) q[0];" % rnd.randrange(dims[1]))
+            if rnd.random() < 0.5:
+                L.append("row[%d] = %s;" % (rnd.randrange(dims[1]), val(kind)))
+                L.append("a[%d, %s] = row[%s];" % (idx(dims[0], p_bad), form[1], form[0]))
         for _k in range(rnd.randint(2, 6)):
             c = rnd.random()
             if c < 0.3:
@@ -1022,4 +1052,47 @@ def array_cases(rnd, n):
             for _k in range(2):
                 L.append("rx(%s) q[%d];" % (elem(p=0.0), rnd.randrange(3)))
         out.append(H3 + "\n".join(L) + "\n")
+    return out
+
+
+def sub_body_block_cases():
+    """every kind of quantum statement inside every kind of block inside a subroutine body: the formal
+    qubits must be translated to the caller's qubits there exactly as at the top of the body (C02)"""
+    out = []
+    stmts = ["h p[0];", "cx p[0], p[1];", "barrier p;", "barrier p[1];", "barrier p[0], p[1];", "reset p[1];", "reset p;",
+             "rx(0.5) p;", "cb[0] = measure p[1];", "ctrl @ x p[1], p[0];", "inv @ s p[1];"]
+    blocks = ["%s", "for int i in [0:1] { %s }", "if (true) { %s }", "if (false) { x p[0]; } else { %s }",
+              "switch (n) { case 1 { %s } default { x p[0]; } }", "for int i in [0:0] { if (i == 0) { %s } }",
+              "if (n == 1) { for int j in {3} { %s } }"]
+    for formal, regs in (("p", "qubit[4] q;\nbit[2] cb;\n"), ("q", "qubit[4] q;\nbit[2] cb;\n"), ("p", "qubit[2] p;\nqubit[4] q;\nbit[2] cb;\n")):
+        for st in stmts:
+            for bl in blocks:
+                body = (bl % st).replace("p[", formal + "[").replace(" p;", " %s;" % formal).replace(" p,", " %s," % formal)
+                if "measure" in st:
+                    continue
+                out.append(H3 + regs + "def f(qubit[2] %s, int[8] n) { %s }\nf(q[2:4], 1);\nf(q[{3, 0}], 1);\n" % (formal, body))
+    return out
+
+
+def cast_use_cases():
+    """a value of every kind stored into a variable of every type, and the variable then used wherever the
+    output must carry a number: gate angle, qubit / bit index, loop bound, pow count, switch target (C03, C07)"""
+    out = []
+    pre = "qubit[4] q;\nbit[4] c;\nbool bv = true;\nfloat[64] fw = 1.7;\n"
+    decls = [("int[8]", "3 > 2"), ("int[8]", "true"), ("int[8]", "bv"), ("int[8]", "bv && true"), ("int", "2 == 2"), ("uint[4]", "true"),
+             ("uint[4]", "!bv"), ("int[8]", "1.7"), ("int[8]", "fw"), ("int[8]", "-0.5"), ("uint[4]", "2.9"),
+             ("float[64]", "true"), ("float[64]", "2"), ("float[32]", "bv"), ("bool", "2"), ("bool", "0.5"), ("bool", "fw"),
+             ("const int[8]", "2 > 1"), ("const uint[4]", "true")]
+    for ty, e in decls:
+        idx = ty.replace("const ", "").startswith(("int", "uint"))
+        uses = ["rx(m) q[0];", "rz(m * 2) q[1];", "pow(m) @ x q[1];" if idx else "gphase(m);"]
+        if idx:
+            uses += ["h q[m];", "cx q[2], q[m];", "c[m] = measure q[m];", "reset q[m];", "barrier q[m];", "for int i in [0:m] { x q[i]; }",
+                     "switch (m) { case 0 { x q[0]; } case 1 { y q[0]; } default { z q[0]; } }"]
+        else:
+            uses += ["if (m == 1) { x q[0]; } else { y q[0]; }"]
+        out.append(H3 + pre + "%s m = %s;\n" % (ty, e) + "\n".join(uses) + "\n")
+        if not ty.startswith("const"):
+            out.append(H3 + pre + "%s m;\nm = %s;\n" % (ty, e) + "\n".join(uses[:4]) + "\n")
+            out.append(H3 + pre + "def f(%s a) -> %s { return a; }\n%s m = f(%s);\n" % (ty, ty, ty, e) + "\n".join(uses[:4]) + "\n")
     return out
